@@ -47,7 +47,7 @@ COMPONENTS = {
     "real": ["protocol_code_generator (whole package)", "protocol.py clean/generate entry point", "Python import system", "real tmpfs filesystem"],
     "stub_or_harness": ["os.walk permuter", "open()/makedirs() fault wrappers", "crash = os._exit in the child", "spec generator"],
 }
-FAULT_KINDS = ["oserror_open", "oserror_read", "oserror_mkdir", "torn", "crash", "crash_before", "files_lost_after_crash",
+FAULT_KINDS = ["project_location", "oserror_open", "oserror_read", "oserror_mkdir", "torn", "crash", "crash_before", "files_lost_after_crash",
                "hash_seed", "walk_permutation", "creation_order", "prepopulated_output", "relative_paths",
                "unrelated_files_in_spec_tree", "spec_edited_between_runs", "failed_protocol_py_run_before", "second_generator_object_in_process", "deep_spec_files_edited_before", "types_moved_between_files_before"]
 PROBES = ["generation_through_build_hook", "walk_order_differs_from_sorted", "fault_on_first_write", "fault_on_last_write", "retry_on_same_instance",
@@ -263,6 +263,16 @@ def run_configs(ctx):
             res.count("fault.relative_paths")
             key("relpath", spelling)
             if not ctx.judge("relative-paths", rs[3], rs[4]["files"]):
+                return False
+        # the checkout lives somewhere else: under directories that are themselves called eolib / src / protocol, in a
+        # path with a blank, in a deep path (the output is a function of the XML, not of where the project sits)
+        for where in ("eolib/src/eolib/protocol/_generated", "my projects/eo lib/out", "a/b/c/d/e/f/_generated", "protocol/_generated/eolib"):
+            o2 = ctx.path(where)
+            rs = ctx.child([{"op": "rmtree", "dir": o2}, {"op": "new", "xml": xml}, {"op": "generate", "out": o2},
+                            {"op": "digest", "dir": o2}], "0")
+            res.count("fault.project_location")
+            key("relpath", where.split("/")[0])
+            if not ctx.judge("relative-paths", rs[2], rs[3]["files"]):
                 return False
     # ---- unrelated files and directories next to the spec files ---------------------------------------
     if "noise" in configs:
